@@ -789,4 +789,77 @@ v("marker-object-test-dropped", MK + [(P, APPLY_TRY, marker_use(""))], {"C04": "
 v("marker-object-test-inverted", MK + [(P, APPLY_TRY, marker_use("            if coroutine is not _NOT_CREATED:\n                continue\n"))], {"C04": "R04"})
 v("marker-object-returns-instead-of-continue", MK + [(P, APPLY_TRY, marker_use("            if coroutine is _NOT_CREATED:\n                return\n"))], {"C04": "R04"})
 
+# ---- round 7 / batch 7: status-returning helpers and records in _pop_ended_meta_tasks
+POP_BODY = """        obsolete_keys, ended_meta_tasks = [], set()
+        for group_name in self._group_meta_tasks_running:
+            still_running = set()
+            while self._group_meta_tasks_running[group_name]:
+                meta_task = self._group_meta_tasks_running[group_name].pop()
+                if meta_task.done():
+                    ended_meta_tasks.add(meta_task)
+                else:
+                    still_running.add(meta_task)
+            if still_running:
+                self._group_meta_tasks_running[group_name] = still_running
+            else:
+                obsolete_keys.append(group_name)
+        # If a group no longer has running meta tasks associated with,
+        # we can remove its name from the dictionary.
+        for group_name in obsolete_keys:
+            del self._group_meta_tasks_running[group_name]
+        return ended_meta_tasks
+"""
+
+
+def pop_collect(ret: str, fresh: bool) -> str:
+    acc = "group_done" if fresh else "ended_meta_tasks"
+    return f"""        ended_meta_tasks: Set[Task[Any]] = set()
+        still_running: Dict[str, Set[Task[Any]]] = {{}}
+        for group_name, meta_tasks in self._group_meta_tasks_running.items():
+{'            group_done: Set[Task[Any]] = set()' + chr(10) if fresh else ''}            if not self._collect_done(meta_tasks, {acc}):
+                still_running[group_name] = meta_tasks - {acc}
+{'            ended_meta_tasks |= group_done' + chr(10) if fresh else ''}        self._group_meta_tasks_running = still_running
+        return ended_meta_tasks
+
+    @staticmethod
+    def _collect_done(meta_tasks: Set[Task[Any]], done: Set[Task[Any]]) -> bool:
+        done.update(task for task in meta_tasks if task.done())
+        return {ret}
+"""
+
+
+v("P-collect-done-subset-test", [(P, POP_BODY, pop_collect("meta_tasks <= done", False))], {"C07": "ok", "C08": "ok", "C04": "ok", "C05": "ok"})
+v("P-collect-done-issubset", [(P, POP_BODY, pop_collect("meta_tasks.issubset(done)", False))], {"C07": "ok", "C08": "ok"})
+v("collect-done-size-test-shared-accumulator", [(P, POP_BODY, pop_collect("len(done) >= len(meta_tasks)", False))], {"C07": "R07.8", "C08": "R08.5"})
+v("collect-done-always-true", [(P, POP_BODY, pop_collect("True", False))], {"C07": "R07.8"})
+
+POP_RECORD = """        obsolete_keys: List[str] = []
+        ended_meta_tasks: Set[Task[Any]] = set()
+        for group_name in self._group_meta_tasks_running:
+            done, pending = self._drain(self._group_meta_tasks_running[group_name])
+            ended_meta_tasks.update(done)
+            if pending:
+                self._group_meta_tasks_running[group_name] = pending
+            else:
+                obsolete_keys.append(group_name)
+        for group_name in obsolete_keys:
+            del self._group_meta_tasks_running[group_name]
+        return ended_meta_tasks
+
+    @staticmethod
+    def _drain(meta_tasks: Set[Task[Any]]) -> Tuple[List[Task[Any]], Set[Task[Any]]]:
+        done: List[Task[Any]] = []
+        pending: Set[Task[Any]] = set()
+        while meta_tasks:
+            meta_task = meta_tasks.pop()
+            if meta_task.done():
+                done.append(meta_task)
+            else:
+                pending.add(meta_task)
+        return done, pending
+"""
+v("P-drain-helper-returns-pair", [(P, POP_BODY, POP_RECORD)], {"C07": "ok", "C08": "ok", "C04": "ok"})
+v("drain-helper-pair-swapped", [(P, POP_BODY, POP_RECORD.replace("        return done, pending\n", "        return pending, done\n"))], {"C07": "R07.8"})
+v("drain-helper-pending-dropped", [(P, POP_BODY, POP_RECORD.replace("                pending.add(meta_task)\n", "                pass\n"))], {"C07": "R07.8"})
+
 VARIANTS = V
